@@ -86,3 +86,12 @@ Theorem C09_canonical_document_with_a_duplicate_is_rejected : forall v ts,
   std_version v = true -> Forall type_lex_ok ts -> Forall type_ok ts -> ~ distinct_decls (doc_file v ts) ->
   forall m exts md, dsl_to_model (text_of (ctoks_doc v ts) ++ [10]) <> DOk m exts md.
 Proof. exact canonical_document_with_a_duplicate_is_rejected. Qed.
+
+(* the same in EVERY LAYOUT with the same tokens — any run of blanks and tabs for a blank, any line break (indentation,
+   blank lines) for a line break — and for every text the pre-pass turns into such a layout (comment lines, trailing
+   comments, trailing blanks): wherever the duplicate stands and however the document is laid out, no model is returned *)
+Theorem C09_every_layout_with_a_duplicate_is_rejected : forall v ts L d,
+  std_version v = true -> Forall type_lex_ok ts -> Forall type_ok ts -> ~ distinct_decls (doc_file v ts) ->
+  Forall2 relay (kts (ctoks_doc v ts)) L -> prepass d = concat (map snd L) ->
+  forall m exts md, dsl_to_model d <> DOk m exts md.
+Proof. exact every_layout_with_a_duplicate_is_rejected. Qed.
